@@ -85,6 +85,16 @@ Example det_inv_Q_values :
   Qeq_bool (gen_inv2Q (fun i j => inject_Z (Z.of_nat (nth j (nth i [[2;1];[1;1]] []) 0))) 0 1) (-1) = true.
 Proof. split; vm_compute; reflexivity. Qed.
 
+(* coverage of Det / Inv, stated: the closed forms exist exactly for dims 1, 2, 3 (theorems above,
+   all real entries); for every other dimension the source is `np.linalg.det(mat)` /
+   `np.linalg.inv(mat)` verbatim -- numpy's LAPACK routines are trusted, not verified; the check
+   only compares them (dims 4, 5) with an exact rational Leibniz / adjugate oracle per (e, p) to
+   1e-10 and checks shape and type.  The model's vdet / vinv are not used above dim 3. *)
+Theorem det_inv_coverage :
+  gen_closed_form_dims = [1; 2; 3] /\ gen_other_dims_delegated_to_numpy = true /\
+  (forall m, gen_detR 1 m = leibniz 1 m /\ gen_detR 2 m = leibniz 2 m /\ gen_detR 3 m = leibniz 3 m).
+Proof. split; [reflexivity|]. split; [reflexivity|]. intros m. exact (det_formula m). Qed.
+
 (* ---------------- _KeepsFeAxes ---------------- *)
 Theorem gen_keeps_axis_is_model a nd : gen_keeps_axis a nd = keeps_axis a nd.
 Proof. unfold gen_keeps_axis, keeps_axis. destruct (a >=? 0)%Z; reflexivity. Qed.
